@@ -63,6 +63,8 @@ var kinds = []rrKind{
 	{"a-bad", func(o string) dns.RR { return &dns.A{Hdr: hdr(o, dns.TypeA), A: net.ParseIP(badV4).To4()} }},
 	{"aaaa-safe", func(o string) dns.RR { return &dns.AAAA{Hdr: hdr(o, dns.TypeAAAA), AAAA: net.ParseIP(safeV6)} }},
 	{"aaaa-bad", func(o string) dns.RR { return &dns.AAAA{Hdr: hdr(o, dns.TypeAAAA), AAAA: net.ParseIP(badV6)} }},
+	// The blocked IPv4 address in its IPv4-mapped IPv6 form.
+	{"aaaa-mapped-bad-v4", func(o string) dns.RR { return &dns.AAAA{Hdr: hdr(o, dns.TypeAAAA), AAAA: net.ParseIP("::ffff:" + badV4)} }},
 	{"https-nohint", func(o string) dns.RR { return https(o, &dns.SVCBAlpn{Alpn: []string{"h2"}}) }},
 	{"https-v4bad", func(o string) dns.RR { return https(o, &dns.SVCBIPv4Hint{Hint: ips(badV4)}) }},
 	{"https-v6bad", func(o string) dns.RR { return https(o, &dns.SVCBIPv6Hint{Hint: ips(badV6)}) }},
@@ -474,7 +476,7 @@ func main() {
 				"distinct_nontrivial": m.Distinct["nontrivial"],
 				"configurations":      m.Counters["configs"],
 				"distinct_cells":      m.Distinct["cells"],
-				"rule": "every answer section of length <=3 (quick) / <=4 (thorough) over 15 record kinds (CNAME safe/bad/case/excepted with owner chaining, A/AAAA safe/bad, HTTPS with no hint, bad v4 hint, bad v6 hint, clean first hint + bad later hint, hint list with bad last, TXT, MX) x 10 rule sets x (5 modes + 5 flag variants: AAAA disabled, protection off, filtering off, client filtering off + 1 variant in which the upstream answers NXDOMAIN with the same answer section + 2 variants with the proxy's answer cache on, where every question is asked twice and the second, cached, response is judged) x 5 query types, through the real pipeline with a scripted upstream; oracle: first record exposing a host the rule model blocks => blocking-mode response for the query's type (no upstream data) and a log entry with original answer; else the upstream answer unchanged. distinct_nontrivial = distinct (configuration, qtype, answer section) where some record is blocked",
+				"rule": "every answer section of length <=3 (quick) / <=4 (thorough) over 16 record kinds (CNAME safe/bad/case/excepted with owner chaining, A/AAAA safe/bad, AAAA holding the blocked IPv4 address in mapped form, HTTPS with no hint, bad v4 hint, bad v6 hint, clean first hint + bad later hint, hint list with bad last, TXT, MX) x 10 rule sets x (5 modes + 5 flag variants: AAAA disabled, protection off, filtering off, client filtering off + 1 variant in which the upstream answers NXDOMAIN with the same answer section + 2 variants with the proxy's answer cache on, where every question is asked twice and the second, cached, response is judged) x 5 query types, through the real pipeline with a scripted upstream; oracle: first record exposing a host the rule model blocks => blocking-mode response for the query's type (no upstream data) and a log entry with original answer; else the upstream answer unchanged. distinct_nontrivial = distinct (configuration, qtype, answer section) where some record is blocked",
 			}
 		},
 		Assumptions: []string{"single-rule matching delegated to urlfilter", "with AAAA disabled and response filtering applicable, HTTPS records are accepted with or without their ipv6hint; where response filtering is not applicable the answer must be byte-identical", "a cached answer is compared without its TTL"},
